@@ -60,7 +60,7 @@ def relax(e, lower, direction):
     """Replace rounding atoms so that the result is ≤ e (direction 'lower') or ≥ e ('upper')."""
     e = sp.expand(e)
     for _ in range(12):
-        atoms = [a for a in e.atoms(sp.Function) if a.func in (ceil_f, floor_f, trunc_f, idiv_f)]
+        atoms = [a for a in e.atoms(sp.Function) if a.func in (ceil_f, floor_f, trunc_f, idiv_f) or a.func.__name__ == "cdiv"]
         if not atoms:
             return e
         # outermost first: an atom that is not contained in another atom's arguments
@@ -79,8 +79,8 @@ def relax(e, lower, direction):
         if not pos and not neg:
             return None
         want_low = (direction == "lower") == pos     # positive coefficient & lower bound wanted -> atom's lower bound
-        x = a.args[0] if a.func is not idiv_f else a.args[0] / a.args[1]
-        if a.func is ceil_f:
+        x = a.args[0] if len(a.args) == 1 else a.args[0] / a.args[1]
+        if a.func is ceil_f or a.func.__name__ == "cdiv":
             repl = x if want_low else x + 1
         else:   # floor, trunc (non-negative argument), integer division
             repl = x - 1 if want_low else x
